@@ -187,6 +187,67 @@ def job_datetime_like(ctx, basic):
                    sample_every=20)
 
 
+def job_datetime_like_decimal(ctx, basic, kind, mark=",", digs="5"):
+    """date-time-like spelling whose last time unit carries a decimal fraction (hh,ii | hh:mm,nn | hh:mm:ss,tt):
+    the same duration as the designator spelling with that decimal on that unit and nothing on lower units"""
+    data, parsers = ctx.data, ctx.parsers
+    DP = parsers.DurationParser()
+    den = 10 ** len(digs)
+
+    def make(e):
+        i = {"Y": digits(e, "Y", 4), "M": digits(e, "M", 2), "D": digits(e, "D", 2), "h": digits(e, "h", 2)}
+        if kind in ("nn", "tt"):
+            i["m"] = digits(e, "m", 2)
+        if kind == "tt":
+            i["s"] = digits(e, "s", 2)
+        return i
+
+    def body(i):
+        sep_d, sep_t = ([], []) if basic else (["-"], [":"])
+        els = ["P"] + i["Y"][0] + sep_d + i["M"][0] + sep_d + i["D"][0] + ["T"] + i["h"][0]
+        if "m" in i:
+            els += sep_t + i["m"][0]
+        if "s" in i:
+            els += sep_t + i["s"][0]
+        els += [mark] + list(digs)
+        return SymStr.make(els), DP.parse(SymStr.make(els))
+
+    def post(i, out):
+        if out[0] != "ok":
+            return [("date-time-like duration with a decimal is accepted", False)]
+        s, d = out[1]
+        unit = {"ii": "hours", "nn": "minutes", "tt": "seconds"}[kind]
+        base = {"ii": i["h"][1], "nn": i.get("m", (0, 0))[1], "tt": i.get("s", (0, 0))[1]}[kind]
+        obs = [("years/months/days are the spelled values", z3.And(L(d._years) == L(i["Y"][1]), L(d._months) == L(i["M"][1]), L(d._days) == L(i["D"][1])))]
+        got = getattr(d, "_" + unit)
+        if type(got) is core.SymRatio:
+            obs.append(("%s carries the spelled decimal value" % unit, L(got.num) * den == (L(base) * den + int(digs)) * got.den))
+        else:
+            obs.append(("%s carries the spelled decimal value" % unit, False if int(digs) else L(got) == L(base)))
+        order = ["hours", "minutes", "seconds"]
+        for u in order[:order.index(unit)]:
+            want = {"hours": i["h"][1], "minutes": i.get("m", (0, 0))[1]}[u]
+            obs.append(("%s is the spelled value" % u, L(getattr(d, "_" + u)) == L(want)))
+        for u in order[order.index(unit) + 1:]:
+            g = getattr(d, "_" + u)
+            obs.append(("nothing is added to %s (the decimal is not counted twice)" % u, (L(g) == 0) if g is not None else True))
+        return obs
+
+    def case_of(v, i):
+        g = lambda t, n: "".join(str(v["%s%d" % (t, k)]) for k in range(n))
+        sd, st = ("", "") if basic else ("-", ":")
+        txt = "P" + g("Y", 4) + sd + g("M", 2) + sd + g("D", 2) + "T" + g("h", 2)
+        if kind in ("nn", "tt"):
+            txt += st + g("m", 2)
+        if kind == "tt":
+            txt += st + g("s", 2)
+        return {"check": "datetime_like_decimal", "text": txt + mark + digs, "kind": kind}
+
+    return sym_run("datetime_like_decimal[%s,%s,%s%s]" % ("basic" if basic else "extended", kind, mark, digs), make, None, body, post,
+                   case_of, scenarios=lambda i: {"date-time-like with decimal": True},
+                   bounds={"digits": "all symbolic", "decimal": mark + digs, "unit": kind}, sample_every=20)
+
+
 DECIMALS = ["PT5,5M", "PT5.5M", "PT0,5S", "PT1H30,25M", "P1DT2,75H", "PT0.000001S", "PT123456,789S", "-PT2,5H", "P1Y2M3DT4H5M6,7S",
             "PT9999999,5S", "PT0,25H", "P3DT0,125S"]
 
@@ -236,6 +297,21 @@ def replay(case, M):
         from .c11 import _py_comps
         bad = not (back == d) or _py_comps(back) != _py_comps(d) or str(back) != s
         return bad, "Duration(%s) -> %r -> %s (str %r)" % (kw, s, _py_comps(back), str(back))
+    if k == "datetime_like_decimal":
+        import re
+        txt = case["text"]
+        try:
+            d = DP.parse(txt)
+        except Exception as exc:
+            return True, "parse(%r) raised %s: %s" % (txt, type(exc).__name__, exc)
+        m = re.match(r"P(\d{4})-?(\d\d)-?(\d\d)T(\d\d):?(\d\d)?:?(\d\d)?[,.](\d+)$", txt)
+        Y, Mo, D, h, mi, se, fr = m.groups()
+        frac = float("0." + fr)
+        exp = {"years": int(Y), "months": int(Mo), "days": int(D), "hours": int(h), "minutes": int(mi or 0), "seconds": int(se or 0)}
+        exp[{"ii": "hours", "nn": "minutes", "tt": "seconds"}[case["kind"]]] += frac
+        ref = data.Duration(**exp)
+        bad = not (d == ref) or abs(d.get_seconds() - ref.get_seconds()) > 1e-6
+        return bad, "parse(%r) = %s, designator spelling %s" % (txt, d, ref)
     if k in ("parse", "datetime_like", "decimal"):
         txt = case["text"]
         try:
@@ -307,6 +383,10 @@ def jobs(tier):
     for sh in (("hours",), ("minutes",), ("seconds",), ("hours", "minutes"), ("days", "seconds")):
         for mark in ((",", "5"), (".", "25"), (",", "000001"), (".", "0")):
             J.append(("job_parse", dict(shape=sh, nd=2, mark=mark)))
+    for basic in (False, True):
+        for kind in ("ii", "nn", "tt"):
+            for mark, digs in ((",", "5"), (".", "25")):
+                J.append(("job_datetime_like_decimal", dict(basic=basic, kind=kind, mark=mark, digs=digs)))
     J.append(("job_datetime_like", dict(basic=False)))
     J.append(("job_datetime_like", dict(basic=True)))
     return J
@@ -326,6 +406,6 @@ INFO = {
                 "components of 7 or more digits"],
     "assumptions": ["the regex shim interprets the library's own patterns from CPython's parse tree; it is validated against re on every run (symx.validate_strs)"],
 }
-REQUIRED_SCENARIOS = {"all": ["negative duration", "weeks form", "zero component", "all components zero", "designator parse",
+REQUIRED_SCENARIOS = {"all": ["date-time-like with decimal", "negative duration", "weeks form", "zero component", "all components zero", "designator parse",
                               "leading minus", "date-time-like", "decimal supplement"]}
 NEEDS_STRING_VALIDATION = True
